@@ -3,6 +3,7 @@ package props
 import (
 	"encoding/json"
 	"fmt"
+	"runtime"
 	"testing"
 
 	"pgregory.net/rapid"
@@ -101,11 +102,68 @@ func (c *NullPosCase) history() *hist.History {
 	return h
 }
 
+// HugeCase is a row whose blob makes the event cross the protocol's packet size: the master has to send
+// the event in several packets (the last one possibly empty).  Pad tunes the event so that the packet
+// payload is exactly 2^24-1+Delta bytes.
+type HugeCase struct {
+	Cfg    hist.Cfg
+	LenLen int // 3: MEDIUMBLOB, 4: LONGBLOB
+	Delta  int
+}
+
+func (c *HugeCase) history() (*hist.History, error) {
+	tb := hist.Table{DB: "d", Name: "huge", ID: 77, Cols: []hist.Column{{Name: "id", Type: refenc.TLong}, {Name: "b", Type: refenc.TBlob, Len: c.LenLen, Nullable: true},
+		{Name: "tail", Type: refenc.TVarchar, Len: 40, Nullable: true}}}
+	build := func(n int) *hist.History {
+		ev := hist.RowsEv{Table: 0, Kind: 0, Present1: []bool{true, true, true}, TS: 50,
+			Rows: []hist.Row{{After: []hist.Value{{U: 7}, {B: refenc.Blob{K: 4, S: uint32(n), N: n}}, {B: refenc.Lit([]byte("behind the blob"))}}}}}
+		h := &hist.History{Cfg: c.Cfg, Tables: []hist.Table{tb}, FirstFile: "bin.000001"}
+		h.Units = []hist.Unit{{Kind: hist.UTxXID, Begin: &hist.Query{DB: "d", SQL: "BEGIN", TS: 49},
+			Items: []hist.Item{{Kind: hist.IRows, Maps: []int{0}, Rows: []hist.RowsEv{ev}, TS: 50}}, XID: 9, TS: 51},
+			{Kind: hist.UDDL, Q: &hist.Query{DB: "d", SQL: "create table after_huge (a int)", TS: 52}}}
+		h.Base = h.MinBase()
+		return h
+	}
+	// measure the rows event with a small blob, then size the blob for the wanted packet payload
+	h := build(10)
+	l, err := h.Lay()
+	if err != nil {
+		return nil, err
+	}
+	size := 0
+	for _, e := range l.Events {
+		if e.Type == hist.RowsEventType(0, c.Cfg.RowsV2) {
+			size = len(e.Bytes)
+		}
+	}
+	want := 1<<24 - 1 + c.Delta - 1 // event bytes: the payload has one leading status byte
+	n := 10 + want - size
+	if c.LenLen == 3 && n > 1<<24-1 {
+		n = 1<<24 - 1
+	}
+	return build(n), nil
+}
+
+func checkHuge(c *HugeCase) error {
+	h, err := c.history()
+	if err != nil {
+		return fmt.Errorf("harness: %v", err)
+	}
+	return checkC01(&E2ECase{H: h, Pacing: PaceFarAhead})
+}
+
 func checkNullPos(c *NullPosCase) error {
 	return checkC01(&E2ECase{H: c.history()})
 }
 
 func init() {
+	registerReplay("c13huge", func(raw json.RawMessage) error {
+		var c HugeCase
+		if err := json.Unmarshal(raw, &c); err != nil {
+			return err
+		}
+		return checkHuge(&c)
+	})
 	registerReplay("c13pos", func(raw json.RawMessage) error {
 		var c NullPosCase
 		if err := json.Unmarshal(raw, &c); err != nil {
@@ -181,8 +239,15 @@ func TestC13(t *testing.T) {
 				} else if lb == 2 {
 					max = 65535
 				}
-				for _, n := range []int{0, 1, 255, 256, 65535, 65536, max} {
-					if n > max {
+				lens := []int{0, 1, 255, 256, 65535, 65536, max}
+				if lb == 3 {
+					lens = append(lens, 1<<24-2, 1<<24-1) // the longest MEDIUMBLOB
+				}
+				if lb == 4 {
+					lens = append(lens, 1<<24-1, 1<<24, 1<<24+1)
+				}
+				for _, n := range lens {
+					if n > max && n < 1<<24-2 {
 						continue
 					}
 					c := CellCase{Col: hist.Column{Type: k.T, Len: lb}, Val: hist.Value{B: refenc.Blob{K: 4, S: uint32(n), N: n}}, Pre: 2, Post: 2}
@@ -193,6 +258,28 @@ func TestC13(t *testing.T) {
 				}
 			}
 		}
+	}
+	if failed > 0 {
+		return
+	}
+	// (a5) end to end: a blob that makes the rows event cross the 2^24-1 byte packet size of the protocol
+	// (payload one byte short of it, exactly it - an empty packet follows -, beyond it; the longest MEDIUMBLOB)
+	if envShard == 1%envNShards {
+		for _, hc := range []HugeCase{{LenLen: 4, Delta: -1}, {LenLen: 4, Delta: 0}, {LenLen: 4, Delta: 1}, {LenLen: 4, Delta: 70001}, {LenLen: 3, Delta: 1 << 20}} {
+			for _, v2 := range []bool{false, true} {
+				c := hc
+				c.Cfg = hist.Cfg{Checksum: v2, RowsV2: v2, TableIDBytes: 6, ServerVersion: "8.0.28", NHeaderSizes: 40, ServerID: 1, CreateTS: 1}
+				rec.Case(true, c, "e2e/event-larger-than-one-protocol-packet")
+				journal("C13", "c13huge", c)
+				if err := checkHuge(&c); err != nil {
+					failed++
+					rec.Violation("c13huge", c, "", err)
+					t.Errorf("C13 violation: %v", err)
+					break
+				}
+			}
+		}
+		runtime.GC()
 	}
 	if failed > 0 {
 		return
